@@ -65,6 +65,20 @@ type Term struct {
 	// hi != nil  =>  0 <= t <= hi;  tz = number of low bits known to be zero
 	hi *big.Int
 	tz int
+	nn bool // known non-negative
+}
+
+func (t *Term) knownNN() bool {
+	if t.IsConst() && t.S.K == SInt {
+		return t.Val.Sign() >= 0
+	}
+	return t.nn || t.hi != nil
+}
+
+// WithNN records 0 <= t on a fresh term.
+func (t *Term) WithNN() *Term {
+	t.nn = true
+	return t
 }
 
 func (t *Term) knownHi() *big.Int {
@@ -166,6 +180,7 @@ func Add(a, b *Term) *Term {
 	if ha, hb := a.knownHi(), b.knownHi(); ha != nil && hb != nil {
 		t.hi = new(big.Int).Add(ha, hb)
 	}
+	t.nn = a.knownNN() && b.knownNN()
 	t.tz = a.knownTz()
 	if z := b.knownTz(); z < t.tz {
 		t.tz = z
@@ -216,6 +231,7 @@ func Mul(a, b *Term) *Term {
 		a, b = b, a
 	}
 	t := newTerm("*", IntSort, a, b)
+	t.nn = a.knownNN() && b.knownNN()
 	if b.IsConst() && b.Val.Sign() > 0 {
 		if ha := a.knownHi(); ha != nil {
 			t.hi = new(big.Int).Mul(ha, b.Val)
@@ -243,6 +259,7 @@ func EDiv(a, b *Term) *Term {
 		if ha := a.knownHi(); ha != nil {
 			t.hi = new(big.Int).Div(ha, b.Val)
 		}
+		t.nn = a.knownNN()
 	}
 	return t
 }
@@ -288,7 +305,11 @@ func Ite(c, a, b *Term) *Term {
 			return Not(c)
 		}
 	}
-	return newTerm("ite", a.S, c, a, b)
+	t := newTerm("ite", a.S, c, a, b)
+	if a.S.K == SInt {
+		t.nn = a.knownNN() && b.knownNN()
+	}
+	return t
 }
 
 func Not(a *Term) *Term {
@@ -426,6 +447,33 @@ func rel(op string, a, b *Term) *Term {
 	}
 	if a == b {
 		return BoolConst(op == "<=" || op == ">=")
+	}
+	if a.S.K == SInt {
+		// sign facts: x known >= 0 compared with a constant <= 0 (and mirrored)
+		if b.IsConst() && a.knownNN() {
+			switch sg := b.Val.Sign(); {
+			case sg <= 0 && op == ">=":
+				return TrueT
+			case sg <= 0 && op == "<":
+				return FalseT
+			case sg < 0 && op == ">":
+				return TrueT
+			case sg < 0 && op == "<=":
+				return FalseT
+			}
+		}
+		if a.IsConst() && b.knownNN() {
+			switch sg := a.Val.Sign(); {
+			case sg <= 0 && op == "<=":
+				return TrueT
+			case sg <= 0 && op == ">":
+				return FalseT
+			case sg < 0 && op == "<":
+				return TrueT
+			case sg < 0 && op == ">=":
+				return FalseT
+			}
+		}
 	}
 	return newTerm(op, BoolSort, a, b)
 }
